@@ -46,7 +46,14 @@ Heights == 1..H
 Sources == 1..S
 FetchOut == {"ok", "fail"}                 \* GetSignedBlockFrom of the announcing source
 SyncOut  == {"synced", "syncing", "fail"}  \* IsSyncingFrom of the announcing source
-StoreOut == {"ok", "fail"}                 \* writing the square's files
+\* store.put: the square goes into the recent-blocks cache first, then its files are created, then the height
+\* is linked.  Where the write fails decides which clean-up path of store.go runs (all of them must leave
+\* nothing readable under the height -- cache included):
+\*   fail_create   file.CreateODSQ4 / CreateODS cannot create the files (storage unavailable)
+\*   fail_recover  a file of that name exists, is not a valid one, and cannot be replaced
+\*   fail_link     the files are written but the height cannot be linked
+StoreFail == {"fail_create", "fail_recover", "fail_link"}
+StoreOut  == {"ok"} \cup StoreFail
 \* outcomes of getter.GetEDS in SharesAvailable
 GetOut   == {"square", "notfound", "deadline", "cancelled", "byzantine", "byz_notfound", "byz_deadline", "other"}
 
@@ -101,7 +108,7 @@ Announce(s, h, fetch, sync, st) ==
         ELSE IF fetch = "fail" THEN "fetch_error"                    \* GetSignedBlockFrom (no fall-back)
         ELSE IF mode = "pruned" /\ ~inWin[h] THEN "historic"         \* dropped right after the fetch
         ELSE IF sync = "fail" THEN "sync_error"                      \* IsSyncingFrom, before storing
-        ELSE IF st = "fail" /\ ~empty[h] THEN "store_error"          \* storeEDS failed: nothing published
+        ELSE IF st \in StoreFail /\ ~empty[h] THEN "store_error"          \* storeEDS failed: nothing published
         ELSE "processed"                                             \* (an empty square is only linked)
   IN
   /\ n < MaxEvents
@@ -136,7 +143,7 @@ Available(h, get, st) ==
              \* binding accepts either; nothing is stored in both cases.
         ELSE IF get \in {"byzantine", "byz_deadline"} THEN "byzantine"
         ELSE IF get = "other" THEN "other_error"
-        ELSE IF st = "fail" THEN "store_error"
+        ELSE IF st \in StoreFail THEN "store_error"
         ELSE "ok_fetched"
   IN
   /\ n < MaxEvents
